@@ -10,9 +10,23 @@ type Result[T any] struct {
 	Error error
 }
 
+// IsNil reports whether v is nil or holds a nil pointer. Values of every other kind - structs,
+// strings, numbers, funcs, maps, ... - are not nil: reflect.Value.IsNil panics for most of them, and
+// an error value of such a type is an error.
+func IsNil(v any) bool {
+	if v == nil {
+		return true
+	}
+	switch rv := reflect.ValueOf(v); rv.Kind() {
+	case reflect.Ptr, reflect.Interface:
+		return rv.IsNil()
+	}
+	return false
+}
+
 // IsOk returns true if the result is not an error.
 func (r Result[T]) IsOk() bool {
-	return r.Error == nil || reflect.ValueOf(r.Error).IsNil()
+	return IsNil(r.Error)
 }
 
 // IsErr returns true if the result is an error.
